@@ -177,6 +177,7 @@ def V.tok (v : V) (t : String) : V :=
       let (v1, s) := v.reqStr r
       ({ v1 with req := some r, reads := [] }).emit s |>.advance
   | "rd" :: _ => v.emit v.rdStr
+  | ["tw"] => ({ v with fresh := false }).emit "tw"
   | ["ex"] => (v.exec).emit "ex"
   | ["ret"] => (v.emit "ret").advance
   | "a" :: _ => v
